@@ -1,5 +1,6 @@
 // C19 conformance harness: a real muscle::ThreadPool under the controlled scheduler.
 //   tp explore <iterations> <seed> <report.ndjson> [tracefile [ntraces]]
+//   tp free    <iterations> <seed> <report.ndjson>           (no scheduler: real pool threads, real blocking; see below)
 // Seeded random workloads: pool size 1..3, 1..3 clients, 0..3 Messages per client, two submitting threads (a client's Messages
 // all come from one of them, so its submission order is defined), each submitter unregisters a random subset of its clients
 // after its submissions, then the pool is destroyed (Shutdown) - possibly while Messages are still pending or being handled.
@@ -118,9 +119,119 @@ static void SubmitterA() {vs::ThreadBegin(); RunPlan(P.planA, 0); (void) g_bDone
 static void Destroyer() {vs::ThreadBegin(); for (int k=0; k<P.destroyAfter; k++) vs::OpBoundary(); (void) AbstractObjectRecycler::GlobalFlushAllCachedObjects(); (void) g_cDone->Notify(); vs::ThreadEnd();}
 static void SubmitterB() {vs::ThreadBegin(); RunPlan(P.planB, 1); (void) g_bDone->Notify(); vs::ThreadEnd();}
 
+// ------------------------------------------------------------------------------------------------------
+// free-running mode: no scheduler - real pool threads, real blocking (WaitCondition in UnregisterClient, the pool threads' sockets),
+// timing noise at the hooks.  Same PoolAbs clauses, evaluated with atomics; a watchdog for UnregisterClient / Shutdown that never returns.
+#include <atomic>
+#include <chrono>
+static std::atomic<long> f_progress(0); static std::atomic<int> f_finished(0), f_totalActive(0), f_maxActive(0); static std::atomic<bool> f_shut(false);
+static std::mutex f_vm; static std::vector<std::string> f_viol; static void FV(const std::string & s) {std::lock_guard<std::mutex> g(f_vm); if (f_viol.size() < 8) f_viol.push_back(s);}
+static thread_local uint32_t f_rng = 1;
+static inline uint32_t FR() {f_rng ^= f_rng << 13; f_rng ^= f_rng >> 17; f_rng ^= f_rng << 5; return f_rng;}
+static int NoiseYield(int, const void *, long) {const uint32_t r = FR()%12; if (r == 0) std::this_thread::yield(); else if (r == 1) {for (volatile int i=0; i<300; i++) {}} return 0;}
+static void FreeEvent(const char * name, const void *, long, long, long, long) {if (!strcmp(name, "ShutFlag")) f_shut = true;}
+class FreeClient : public IThreadPoolClient {
+public:
+   FreeClient(ThreadPool * tp, int id) : IThreadPoolClient(tp), _id(id), _in(0), _unregReturned(false), _nHandled(0) {}
+   int _id; std::atomic<int> _in; std::atomic<bool> _unregReturned; std::vector<uint32> _handled; std::atomic<int> _nHandled; std::vector<uint32> _submitted;
+protected:
+   virtual void MessageReceivedFromThreadPool(const MessageRef & msg, uint32)
+   {
+      char b[160];
+      if (++_in > 1) {snprintf(b, sizeof(b), "two pool threads are inside the handler of client %d at the same time", _id); FV(b);}
+      if (_unregReturned.load()) {snprintf(b, sizeof(b), "the handler of client %d was called after SetThreadPool(NULL) had returned for it", _id); FV(b);}
+      const int a = ++f_totalActive; int m = f_maxActive.load(); while ((a > m)&&(!f_maxActive.compare_exchange_weak(m, a))) {}
+      _handled.push_back(msg()->what); _nHandled++;
+      const uint32_t w = FR()%6; if (w == 0) std::this_thread::yield(); else if (w < 3) {for (volatile int i=0; i<400; i++) {}}
+      f_totalActive--; _in--; f_progress++;
+   }
+};
+struct FreePlanTP {int poolSize, nClients; bool destroyer; int destroyAfterMs; std::vector<int> nMsgs; std::vector<bool> unreg;};
+static FreePlanTP FP; static std::vector<FreeClient *> FC;
+static void FreeSubmitter(int parity, uint32_t seed)
+{
+   f_rng = seed|1; char b[200];
+   std::vector<int> left; for (int c=0; c<FP.nClients; c++) left.push_back(((c%2) == parity) ? FP.nMsgs[c] : 0);
+   while(true) {
+      std::vector<int> cand; for (int c=0; c<FP.nClients; c++) if (left[c] > 0) cand.push_back(c);
+      if (cand.empty()) break;
+      const int c = cand[FR()%cand.size()]; left[c]--;
+      const uint32 m = (uint32) (FP.nMsgs[c]-left[c]);
+      const bool shutBefore = f_shut.load();
+      const status_t r = FC[c]->SendMessageToThreadPool(GetMessageFromPool(m));
+      if (r.IsOK()) FC[c]->_submitted.push_back(m);
+      else if ((!shutBefore)&&(!f_shut.load())) {snprintf(b, sizeof(b), "SendMessageToThreadPool failed for registered client %d although the pool is not being shut down", c+1); FV(b);}
+      else left[c] = 0;     // refused by a pool that is shut down: nothing more from this client
+      f_progress++;
+      if ((FR()%5) == 0) std::this_thread::yield();
+   }
+   for (int c=parity; c<FP.nClients; c+=2) if (FP.unreg[c]) {
+      FC[c]->SetThreadPool(NULL);
+      const bool shut = f_shut.load();       // read AFTER the return: if no shutdown had begun by now, none had begun when the call returned
+      if (FC[c]->_in.load() > 0) {snprintf(b, sizeof(b), "SetThreadPool(NULL) returned for client %d while a pool thread is still inside its handler", c+1); FV(b);}
+      if ((!shut)&&((size_t) FC[c]->_nHandled.load() != FC[c]->_submitted.size())) {snprintf(b, sizeof(b), "UnregisterClient(client %d) returned after %d of %zu submitted Messages were handled", c+1, FC[c]->_nHandled.load(), FC[c]->_submitted.size()); FV(b);}
+      FC[c]->_unregReturned = true;
+      f_progress++;
+   }
+   f_finished++;
+}
+static void FreeDestroyer() {std::this_thread::sleep_for(std::chrono::microseconds(FP.destroyAfterMs*100)); (void) AbstractObjectRecycler::GlobalFlushAllCachedObjects(); f_progress++; f_finished++;}
+static int Free(uint32 iters, uint32 seed0, const char * outFile)
+{
+   FILE * out = fopen(outFile, "w"); if (!out) return 2;
+   muscle::verif::YieldFuncRef() = NoiseYield; muscle::verif::EventFuncRef() = FreeEvent;
+   long execs = 0, violated = 0, hung = 0, handledTotal = 0, dropped = 0;
+   for (uint32 it=0; (it<iters)&&(violated < 10)&&(hung == 0); it++) {
+      const uint32 seed = seed0*1000003u+it; std::mt19937 gen(seed*2246822519u+5);
+      FP.poolSize = 1+(int)(gen()%4); FP.nClients = 1+(int)(gen()%6); FP.destroyer = (gen()%3) == 0; FP.destroyAfterMs = (int)(gen()%30); FP.nMsgs.clear(); FP.unreg.clear();
+      for (int c=0; c<FP.nClients; c++) {FP.nMsgs.push_back((int)(gen()%40)); FP.unreg.push_back((gen()%3) != 0);}
+      f_progress = 0; f_finished = 0; f_totalActive = 0; f_maxActive = 0; f_shut = false; f_viol.clear();
+      ThreadPool * tp = new ThreadPool(FP.poolSize);
+      FC.clear(); for (int c=0; c<FP.nClients; c++) FC.push_back(new FreeClient(tp, c+1));
+      std::vector<std::thread> ths; ths.emplace_back(FreeSubmitter, 0, gen()); ths.emplace_back(FreeSubmitter, 1, gen()); if (FP.destroyer) ths.emplace_back(FreeDestroyer);
+      const int need = (int) ths.size();
+      long last = -1; int idle = 0; bool stuck = false;
+      while (f_finished.load() < need) { std::this_thread::sleep_for(std::chrono::milliseconds(2)); const long p = f_progress.load(); if (p != last) {last = p; idle = 0;} else if (++idle > 15000) {stuck = true; break;} }
+      std::atomic<bool> delDone(false);
+      if (!stuck) {
+         for (size_t k=0; k<ths.size(); k++) ths[k].join();
+         std::thread del([&]{delete tp; delDone = true;});       // the destructor shuts the pool down: it must terminate too
+         for (int w=0; (w<15000)&&(!delDone.load()); w++) std::this_thread::sleep_for(std::chrono::milliseconds(2));
+         if (delDone.load()) del.join(); else {stuck = true; del.detach();}
+      }
+      execs++;
+      if (stuck) {hung++; FV("STRANDED (free-running): UnregisterClient or Shutdown did not return within 30 s without any progress");}
+      else {
+         char b[200];
+         for (int c=0; c<FP.nClients; c++) {
+            const std::vector<uint32> & h = FC[c]->_handled; const std::vector<uint32> & sb = FC[c]->_submitted;
+            bool prefix = (h.size() <= sb.size()); for (size_t i=0; (prefix)&&(i<h.size()); i++) if (h[i] != sb[i]) prefix = false;
+            if (!prefix) {snprintf(b, sizeof(b), "client %d: handled sequence (%zu) is not a prefix of the submitted sequence (%zu): a Message was lost, duplicated or reordered", c+1, h.size(), sb.size()); FV(b);}
+            else if ((!f_shut.load())&&(false)) {}
+            handledTotal += (long) h.size(); dropped += (long) (sb.size()-std::min(h.size(), sb.size()));
+         }
+         if (f_maxActive.load() > FP.poolSize) {snprintf(b, sizeof(b), "%d handlers were active at once in a pool of %d threads", f_maxActive.load(), FP.poolSize); FV(b);}
+      }
+      if (!f_viol.empty()) {
+         violated++;
+         mj::Value rec = mj::Value::Obj(); rec.set("free", mj::Value::Bool(true)).set("seed", mj::Value::Int(seed)).set("iteration", mj::Value::Int(it)).set("pool_size", mj::Value::Int(FP.poolSize)).set("clients", mj::Value::Int(FP.nClients)).set("concurrent_shutdown", mj::Value::Bool(FP.destroyer));
+         mj::Value va = mj::Value::Arr(); {std::lock_guard<std::mutex> g(f_vm); for (size_t k=0; k<f_viol.size(); k++) va.push(mj::Value::Str(f_viol[k]));} rec.set("violations", va);
+         fprintf(out, "%s\n", mj::ToString(rec).c_str());
+      }
+      if (stuck) {for (size_t k=0; k<ths.size(); k++) if (ths[k].joinable()) ths[k].detach();}
+      else for (size_t k=0; k<FC.size(); k++) delete FC[k];
+   }
+   mj::Value sum = mj::Value::Obj();
+   sum.set("summary", mj::Value::Bool(true)).set("executions", mj::Value::Int(execs)).set("violated", mj::Value::Int(violated)).set("stranded", mj::Value::Int(hung)).set("messages_handled", mj::Value::Int(handledTotal)).set("messages_dropped_by_shutdown", mj::Value::Int(dropped));
+   fprintf(out, "%s\n", mj::ToString(sum).c_str()); fclose(out); printf("%s\n", mj::ToString(sum).c_str()); fflush(stdout);
+   if (hung) _exit(0);
+   return 0;
+}
+
 int main(int argc, char ** argv)
 {
    CompleteSetupSystem css;
+   if ((argc >= 5)&&(!strcmp(argv[1], "free"))) return Free((uint32) atol(argv[2]), (uint32) atol(argv[3]), argv[4]);
    vs::Install();
    if ((argc < 5)||(strcmp(argv[1], "explore"))) {fprintf(stderr, "usage: tp explore <iters> <seed> <report> [trace [n]]\n"); return 2;}
    const uint32 iters = (uint32) atol(argv[2]), seed0 = (uint32) atol(argv[3]);
